@@ -2,12 +2,14 @@
    leaves behind.  Specification functions over the call list (started / pieces), the ghost
    block list, and the invariant WInv tying files_info / ids_info / OpenedFiles / current_id
    to it: the recorded offsets are the starts of the MAXIMAL runs of each file's blocks. *)
+From MLA Require Import Limit.
 From MLA Require Import Base Stream Blocks Writer RoundTripBlocks.
 From Coq Require Import ZifyBool ZifyNat ZifyN.
 Open Scope N_scope.
 
 (* ---------- association lists ---------- *)
 Section AList.
+  Context {LIM : Limit}.
   Context {A : Type}.
   Implicit Types l : list (N * A).
 
@@ -133,6 +135,7 @@ Proof.
 Qed.
 
 Section RTWriter.
+  Context {LIM : Limit}.
   Variable FNMAX : N.
   Variables T_START T_CONTENT T_EOA T_EOF : N.
   Variable H : bytes -> bytes.
